@@ -257,6 +257,11 @@ def r5(fx):
             yield from _witness_ob(fx, fn, c, seg, ver)
 
 
+def _nth_site(fn, call):
+    sites = [c for c in src.calls_in(fn, '_encode', into_nested=False) if src.call_name(c) == '_encode']
+    return ['first', 'second', 'third', 'fourth'][sites.index(call)] if call in sites and sites.index(call) < 4 else 'n-th'
+
+
 def _witness_ob(fx, fn, call, seg, ver):
     segt, vert = ast.unparse(seg), ast.unparse(ver)
     comp = None
@@ -305,7 +310,7 @@ def _witness_ob(fx, fn, call, seg, ver):
                 if b1 is not None and len(i.body) == 1 and ast.unparse(i.body[0]) == f'{vname} = {g}' and len(i.orelse) == 1 \
                         and isinstance(i.orelse[0], ast.If):
                     j = i.orelse[0]
-                    if nf.norm(j.test) in (f'{g} > {vname}', f'{vname} < {g}') and any(isinstance(x, ast.Raise) for x in j.body):
+                    if nf.same_any(j.test, (f'{g} > {vname}', f'{vname} < {g}')) and any(isinstance(x, ast.Raise) for x in j.body):
                         witness = f'{g} = find_version({segt}, ...); {vname} = {g} if None, raise if {g} > {vname}'
         # Form B: the call sits under a guard `G <= VER` where VER is literally the version expression passed
         for t, pol in nf.guards_of(call, fn):
@@ -343,12 +348,12 @@ def _witness_ob(fx, fn, call, seg, ver):
                     else:
                         witness = None
                         partial = nf.guard_text(gs)
-                        yield ob(f'_encode({segt}, version={vert}) in comprehension over {chunks}', False, call,
+                        yield ob('_encode(<chunk segments>, version=<caller-supplied version>) in the comprehension over the chunks', False, call,
                                  got=f'fit witness only on the path `{partial}`; on the other path {vname} is the caller-supplied '
                                      f'version and no find_version({segt}) <= {vname} test dominates the call',
                                  want=f'{vname} = max(find_version(s) for s in {chunks}) or a dominating raise if a chunk needs a larger version')
                         return
-    yield ob(f'_encode({segt}, version={vert})' + (' in comprehension' if comp is not None else ''), witness is not None, call,
+    yield ob(('_encode(<chunk segments>) in the comprehension over the chunks' if comp is not None else f'_encode at the {_nth_site(fn, call)} site'), witness is not None, call,
              got=witness or 'no fit witness found', want='version := find_version(segments) or dominating raise on find_version(segments) > version')
 
 
@@ -375,7 +380,7 @@ def sized_equals_written(fx):
     vr = genv['version_range']
     default_enc = C(fx, 'DEFAULT_BYTE_ENCODING')
     # the SA header block of _encode
-    sa_if = [s for s in enc.body if isinstance(s, ast.If) and ast.unparse(s.test) == 'sa_mode']
+    sa_if = [s for s in enc.body if isinstance(s, ast.If) and nf.same_inlined(enc, s.test, 'sa_info is not None')]
     sa_block = single(sa_if, '`if sa_mode:` block in _encode').body
 
     class SA(tuple):
@@ -417,20 +422,30 @@ def sized_equals_written(fx):
 
 
 def _caller_convention(fx, enc):
+    # the statements of _encode that derive what write_segment is told about the version: found by the call's arguments
+    calls = [c for c in src.calls_in(enc, 'write_segment')]
+    names = set()
+    if len(calls) == 1 and len(calls[0].args) >= 4:
+        names = {a.id for a in calls[0].args[2:4] if isinstance(a, ast.Name)}
+    return _caller_convention_named(fx, enc, names or {'ver', 'ver_range'})
+
+
+def _caller_convention_named(fx, enc, names):
     """How _encode derives (ver, ver_range) for write_segment from version: read from its first statements."""
     it = Interp()
     pre = []
     for st in enc.body:
         txt = ast.unparse(st)
-        if isinstance(st, ast.Assign) and ast.unparse(st.targets[0]) in ('is_micro', 'ver', 'ver_range'):
+        if isinstance(st, ast.Assign) and (ast.unparse(st.targets[0]) in names or nf.same(st.value, 'version < 1')):
             pre.append(st)
-        elif isinstance(st, ast.If) and 'ver' in txt and 'version_range' in txt:
+        elif isinstance(st, ast.If) and 'version_range' in txt:
             pre.append(st)
     need(len(pre) >= 3, '_encode: derivation of ver / ver_range not found')
+    vnames = [a.id for a in [c for c in src.calls_in(enc, 'write_segment')][0].args[2:4]]
     genv = encoder_env(fx.forest, it)
 
     def conv(rv, vr):
         e = dict(genv, version=rv)
         it.block(pre, e)
-        return e['ver'], e['ver_range']
+        return e[vnames[0]], e[vnames[1]]
     return conv
